@@ -43,14 +43,20 @@ CONFIG = {
             "fuel": {}, "helpers": "src/a.c", "have": 1, "real": 8, "aux": [],
             "what": "Horner evaluators and coefficient swap of src/poly.c, wrappers of a/poly.h",
             "hyp": "none on sizes; the range of coefficients is not empty (the empty range, undefined in C, is an error on both sides)"},
-    "C08": {"sources": [("src/linalg.c", ["a_real_triL1", "a_real_triL", "a_real_triU", "a_real_diag1"]),
-                        ("src/linalg_ldl.c", ["a_real_ldl" + k for k in " _L _D _lower _lower_ _upper _upper_ _solve _inv _inv_ _det _lndet".split(" ")]),
+    "C08": {"sources": [("src/math.c", ["a_real_swap"]),
+                        ("src/linalg.c", ["a_real_triL1", "a_real_triL", "a_real_triU", "a_real_diag1"]),
+                        ("src/linalg_ldl.c", ["a_real_ldl" + k for k in
+                                              " _L _D _lower _lower_ _upper _upper_ _solve _inv _inv_ _det _lndet _sgndet".split(" ")]),
                         ("src/linalg_llt.c", ["a_real_llt" + k for k in " _L _lower _lower_ _upper _upper_ _solve _inv _inv_ _det _lndet".split(" ")]),
-                        ("src/linalg_plu.c", ["a_real_plu" + k for k in "_L _U _lower _lower_ _upper _upper_ _det _lndet".split()])],
-            "regions": {}, "fuel": {}, "helpers": "src/a.c", "have": 1, "real": 8,
-            "aux": ["a_real_triL1", "a_real_triL", "a_real_triU", "a_real_diag1"],
-            "what": "LDL^T and Cholesky routines and the permutation-free PLU routines",
-            "hyp": "the order is an a_uint value (U32); plu_det for a non-negative sign"},
+                        ("src/linalg_plu.c", ["a_real_plu" + k for k in
+                                              " _P _P_ _L _U _apply _lower _lower_ _upper _upper_ _solve _inv _inv_ _det _lndet _sgndet".split(" ")])],
+            # a_real_plu swaps two rows of the same matrix: both pointer parameters of a_real_swap are views into one array
+            "regions": {"a_real_swap": {"lhs": "m", "rhs": "m"}}, "fuel": {}, "helpers": "src/a.c", "have": 1, "real": 8,
+            # functions whose int objects are carried in Z (sign flips): everything else keeps nat
+            "signed": ["a_real_plu", "a_real_plu_det", "a_real_plu_sgndet", "a_real_ldl_sgndet"],
+            "aux": ["a_real_swap", "a_real_triL1", "a_real_triL", "a_real_triU", "a_real_diag1"],
+            "what": "PLU (partial pivoting), LDL^T and Cholesky families",
+            "hyp": "the order is an a_uint value (U32); sgndet for a sign other than INT_MIN"},
     "C09": {"sources": [("src/linalg.c", ["a_real_" + k for k in
                                           "T1 T2 eye1 eye2 tri1 tri2 diag diag1 diag2 triL triL1 triL2 triU triU1 triU2 mulmm mulTm mulmT mulTT".split()])],
             "regions": {}, "fuel": {}, "helpers": "src/a.c", "have": 1, "real": 8,
@@ -141,7 +147,7 @@ def arr_translate_and_tie(ctx, pid, timeout=600):
     try:
         text, errs, sigs = c2arr.translate([(str(repo / rel), names) for rel, names in conf["sources"]], str(repo / "include"), str(cfg),
                                            regions=conf["regions"], fuel=conf["fuel"], helpers_source=str(repo / conf["helpers"]),
-                                           externs=conf.get("externs"))
+                                           externs=conf.get("externs"), signed=conf.get("signed"))
     except c2arr.Unsupported as ex:
         text, errs, sigs = "", {n: str(ex) for n in funcs}, {}
     prelude = c2arr.PRELUDE
